@@ -18,6 +18,10 @@ Line protocol of the Tls area (C17).
   replsplit <old|x> <fp> <exp> <names>  the two halves of replace_certificate with a probe between
   sni <authority> <sni> <names>         the two router predicates (stateless)
   route <sni|none> <authority>          the gate of route_from_request on the current state
+  routeh2 <sni> <auth>,<auth>,…         the same for the streams of one HTTP/2 connection (e2e)
+  nosni                                 resolve for a ClientHello without server_name
+  chain <leaf> <links>                  the chain presented for a certificate added with
+                                        certificate_chain entries (stateless)
 
 Every state-changing op answers `<result> | <grid dump>`; the dump has one
 field per probe: `<wildcard lookup>/<exact lookup>/<served>/<names_for_sni>`.
@@ -100,6 +104,18 @@ def stepLine (d : D) (line : String) : D × List String :=
     match probes.mapM hexToBytes with
     | some g => let d' : D := { s := init, grid := g, short := true }; (d', [s!"new | {dump d' d'.s}"])
     | none => (d, ["bad-op"])
+  | ["chain", leaf, links] =>
+    -- links: `_` or comma separated: an id, `x` (block that does not parse), `g` (text without markers: no block)
+    let parsed : Option (List Link) :=
+      if links = "_" then some []
+      else (links.splitOn ",").filter (· ≠ "g") |>.mapM fun w =>
+        if w = "x" then some Link.bad else w.toNat?.map Link.cert
+    match leaf.toNat?, parsed with
+    | some leaf, some ls =>
+      match assembleChain leaf ls with
+      | some c => (d, ["chain " ++ " ".intercalate (c.map toString)])
+      | none => (d, ["err"])
+    | _, _ => (d, ["bad-op"])
   | ["sni", a, sni, ns] =>
     match hexToBytes a, hexToBytes sni, parseNames ns with
     | some a, some sni, some ns =>
@@ -139,6 +155,14 @@ def stepLine (d : D) (line : String) : D × List String :=
           let r := step d.s (.replace old c)
           if r.2 = Out.dead then ({ d with s := r.1 }, ["panic"])
           else ({ d with s := r.1 }, [s!"{outStr r.2} | {dump d mid} || {dump d r.1}"])
+      | _, _ => (d, ["bad-op"])
+    | ["nosni"] => (d, [servedStr (resolve noRe d.s none)])
+    | ["routeh2", sni, auths] =>
+      -- several streams of one HTTP/2 connection: the SAN snapshot is taken once, at the handshake
+      match hexToBytes sni, (auths.splitOn ",").mapM hexToBytes with
+      | some sni, some auths =>
+        let snap := snapshot noRe d.s (some sni)
+        (d, ["allow=" ++ ",".intercalate (auths.map fun a => boolStr (routeAllowed true (some sni) snap a))])
       | _, _ => (d, ["bad-op"])
     | ["route", sni, a] =>
       let sni? : Option (Option (List Nat)) := if sni = "none" then some none else (hexToBytes sni).map some
